@@ -34,6 +34,22 @@ func Apply(cfg *config.PikeConfig) error {
 	return server.Start()
 }
 
+// ApplyStepwise is Apply with a callback after each step of main.update() (a reload takes time: requests in
+// flight see the caches of the new configuration while the servers are still those of the old one)
+func ApplyStepwise(cfg *config.PikeConfig, after func(step string)) error {
+	compress.Reset(cfg.Compresses)
+	after("compresses")
+	cache.ResetDispatchers(cfg.Caches)
+	after("caches")
+	upstream.Reset(cfg.Upstreams)
+	after("upstreams")
+	location.Reset(cfg.Locations)
+	after("locations")
+	server.Reset(cfg.Servers)
+	after("servers")
+	return server.Start()
+}
+
 // SimpleCfg one server, one cache, one location without constraints, one upstream
 type SimpleCfg struct {
 	CacheName  string
